@@ -2,8 +2,9 @@
 
 Correspondence: clusters of 3–8 real `MembershipProtocol` nodes run inside the real `Simulation`
 over the real `Network`/`NetworkLink` objects of /repo.  The harness chooses every one-way delay
-(a latency object fed from the case seed), the `random.shuffle` results (probe order, delegates)
-and crash times.  The sequence of events delivered to the nodes (the *schedule*) is recorded and
+(a latency object fed from the case seed), the `random.shuffle` results (probe order, delegates),
+crash times, and the `Network.partition()` / `Partition.heal()` calls (partial, healing and
+overlapping partitions; messages the network refuses are logged as `l` lines).  The sequence of events delivered to the nodes (the *schedule*) is recorded and
 replayed through the Lean model (`HappyModel/C13`), which keeps its own message soup and timers;
 after every delivered event the acting node's `get_member_state` row, the messages it emitted
 (with piggy-backed updates) and the timers it armed are compared.  The Lean Spec predicates
@@ -11,7 +12,8 @@ after every delivered event the acting node's `get_member_state` row, the messag
 
 Second family: a stand-alone `PhiAccrualDetector` driven by heartbeat times and sampled on an
 increasing time grid (mean/std bit patterns and `is_available` decisions are compared with the
-model's float glue; the sampled phi values are judged for monotonicity).
+model's float glue; the sampled phi values are judged for monotonicity, `+inf` included, along
+silences that reach the subnormal range of the tail probability and its underflow).
 """
 from __future__ import annotations
 
@@ -58,7 +60,7 @@ def ystar(thr: float) -> float:
     """least double y whose phi reaches thr (phi_of_y is the code's own formula)"""
     if thr in _YSTAR:
         return _YSTAR[thr]
-    lo, hi = -60.0, 60.0
+    lo, hi = -60.0, 60.0   # phi_of_y(60) = +inf: the tail probability underflows near y = 38.5
     assert phi_of_y(lo) < thr <= phi_of_y(hi)
     while True:
         mid = (lo + hi) / 2
@@ -99,7 +101,7 @@ def run_cluster(case):
     dmax, dmode = case["dmax"], case.get("dmode", "uniform")
     out, sched = [], []
     crashed = [False] * n
-    st = {"shuf": None, "next_id": 0, "events": 0}
+    st = {"shuf": None, "next_id": 0, "events": 0, "lost": {}}
     limit = 400 * n * max(1, case["rounds"]) + 1000
 
     def idx(name):
@@ -195,7 +197,7 @@ def run_cluster(case):
                     m["_hv"] = k
                     kind = "p" if e.event_type == "MembershipPing" else "a"
                     f = m.get("indirect_for")
-                    out.append(f"m {k} {kind} {a} {idx(m['destination'])} {'-' if f is None else idx(f)} {upds(m)}")
+                    out.append(f"{sent_tag(k, m)} {k} {kind} {a} {idx(m['destination'])} {'-' if f is None else idx(f)} {upds(m)}")
                 elif e.event_type == "MembershipIndirectPing":
                     out.append(f"t {idx(e.context['metadata']['probe_target'])} i {e.time.nanoseconds}")
                 elif e.event_type == "MembershipSuspicionTimeout":
@@ -206,9 +208,40 @@ def run_cluster(case):
                     out.append(f"? emitted {e.event_type}")
             return res
 
+    def sent_tag(k, m):
+        """'m' = handed to the network, 'l' = the network refuses to route it (active partition).  The
+        decision is read from the public `is_partitioned` at send time; `Net.handle_event` below
+        cross-checks it against what the network really does with the message."""
+        lost = net.is_partitioned(m["source"], m["destination"])
+        st["lost"][k] = lost
+        return "l" if lost else "m"
+
+    class Net(Network):
+        def handle_event(self, ev):
+            md = ev.context.get("metadata", {})
+            k = md.get("_hv")
+            if k is not None and self.is_partitioned(md.get("source"), md.get("destination")) != st["lost"].get(k):
+                out.append(f"? route-mismatch {k}")
+            return super().handle_event(ev)
+
     class Ctl(Entity):
         def handle_event(self, ev):
             meta = ev.context.get("metadata", {})
+            if ev.event_type == "HvCut":
+                h, ga, gb = meta["h"], meta["ga"], meta["gb"]
+                handles[h] = net.partition([nodes[i] for i in ga], [nodes[j] for j in gb])
+                line = f"P {self.now.nanoseconds} {h} {','.join(map(str, ga)) or '-'} {','.join(map(str, gb)) or '-'}"
+                out.append(line)
+                sched.append(line)
+                return None
+            if ev.event_type == "HvHeal":
+                h = meta["h"]
+                if handles.get(h) is not None:
+                    handles[h].heal()
+                line = f"H {self.now.nanoseconds} {h}"
+                out.append(line)
+                sched.append(line)
+                return None
             if ev.event_type == "HvStart":
                 a = meta["node"]
                 st["shuf"] = None
@@ -227,7 +260,7 @@ def run_cluster(case):
                 e.context["metadata"]["_hv"] = k
                 u = upds(e.context["metadata"])
                 out.append(f"J {self.now.nanoseconds}")
-                out.append(f"m {k} p {src} {dst} - {u}")
+                out.append(f"{sent_tag(k, e.context['metadata'])} {k} p {src} {dst} - {u}")
                 sched.append(f"J {self.now.nanoseconds} {src} {dst} {u}")
                 return [e]
             if ev.event_type == "HvCrash":
@@ -238,7 +271,8 @@ def run_cluster(case):
                 sched.append(line)
             return None
 
-    net = Network(name="net")
+    net = Net(name="net")
+    handles = {}
     nodes = []
     for a in range(n):
         nd = Node(f"n{a}", net, probe_interval=interval, suspicion_timeout=susp,
@@ -264,6 +298,14 @@ def run_cluster(case):
         for x, t in case.get("crashes", []):
             sim.schedule(Event(time=Instant(t * U), event_type="HvCrash", target=ctl, daemon=True,
                                context={"metadata": {"node": x}}))
+        # partition / heal operations happen 1 ns after a grid point: never at the same instant as a
+        # send, so "blocked at send time" and "blocked when the network routes it" coincide
+        for h, (t, ga, gb, theal) in enumerate(case.get("parts", [])):
+            sim.schedule(Event(time=Instant(t * U + 1), event_type="HvCut", target=ctl, daemon=True,
+                               context={"metadata": {"h": h, "ga": ga, "gb": gb}}))
+            if theal is not None:
+                sim.schedule(Event(time=Instant(theal * U + 1), event_type="HvHeal", target=ctl, daemon=True,
+                                   context={"metadata": {"h": h}}))
         for t, src, dst, ups in case.get("inject", []):
             sim.schedule(Event(time=Instant(t * U), event_type="HvInject", target=ctl, daemon=True,
                                context={"metadata": {"src": src, "dst": dst, "ups": ups}}))
@@ -312,9 +354,15 @@ class C13(core.Property):
     rule = ("family cluster: 3–8 MembershipProtocol nodes in the real Simulation/Network for 8–40 probe rounds; "
             "probe interval 1/16–2 s, suspicion timeout from below interval/2 to 5 intervals, phi threshold 1–16, "
             "per-message one-way delays drawn from [0, dmax] with dmax from 1/512 s to 2 intervals (on / just below / "
-            "just above interval/2), 0–3 crashes (before the first tick, on a tick, mid-run), optional start offsets; "
-            "non-trivial = at least one message delivered; family phi: stand-alone detector, ≤60 heartbeats/samples "
-            "incl. samples around the critical elapsed time; distinct = distinct case content")
+            "just above interval/2), 0–3 crashes (before the first tick, on a tick, mid-run), optional start offsets, "
+            "forged late gossip; one third of the clusters run over a network that is partitioned with the real "
+            "Network.partition()/Partition.heal(): a victim cut off from some peers for good, from all peers and "
+            "re-connected, a minority split, overlapping handles, a flapping cut — mostly with no crash at all; "
+            "non-trivial = at least one message delivered; family phi: stand-alone detector, heartbeats on a 1/512 s "
+            "grid, samples at ns resolution around the threshold crossing and along a long silence placed by "
+            "standardised distance (−3 … 10^5 standard deviations), dense through the range where the tail "
+            "probability is a subnormal double and across its underflow to 0 (phi = +inf); "
+            "distinct = distinct case content")
     trusted_base = [
         "hv/props/c13.py harness (Node subclass logging delivered events, crash = node ignores events, "
         "latency object and random.shuffle shim fed from the case seed)",
@@ -323,6 +371,10 @@ class C13(core.Property):
         "phi decision glue: y computed in Lean floats (same libm pow/sqrt), compared with ystar found by bisection "
         "on the code's own -log10(0.5*erfc(y/sqrt 2)); math.erfc/log10 themselves are parameters of phi_monotone",
         "real engine event ordering (C01) decides the schedule; the model replays it and rejects overdue timers",
+        "partition()/heal() calls are issued 1 ns after a grid instant, so 'blocked when sent' (public is_partitioned, "
+        "logged by the harness) equals 'blocked when routed' (cross-checked inside a Network subclass)",
+        "phi values cross the protocol as IEEE-754 bit patterns; for non-negative doubles the order of the patterns is "
+        "the order of the values (Spec.pvOfBits), +inf = 0x7FF0000000000000",
     ]
     assumptions = [
         "crash = the member stops handling events for good (its in-flight messages are still delivered)",
@@ -330,9 +382,13 @@ class C13(core.Property):
         "'a bound well below the probe interval' is read as 2*delta < probe_interval/2 + suspicion_timeout "
         "(implied by delta < probe_interval/2 <= suspicion_timeout); delta is the largest one-way delay observed",
         "detection bound: crash + delta + ((crashes+1)*(n-1)+2) probe intervals + interval/2",
+        "clauses 1 and 2 are judged only on runs in which the network refused no message (no send across an active "
+        "partition) and nothing was forged; clause 3 (DEAD is not ALIVE again without a higher incarnation) is judged "
+        "on every run, over the whole history of each cell, not just consecutive reports",
     ]
     hypotheses = [
-        "Timely delta: at every action no message in flight is older than delta (no_false_death)",
+        "Timely delta: at every action no message in flight is older than delta, and no partition is active (no_false_death)",
+        "BlockedRun a b: is_partitioned(a, b) before every action of the run (partition_isolates)",
         "2*delta < half + susp (no_false_death)",
         "tail antitone, nlog antitone on positives and non-negative on the range of tail, 0 < sd (phi_monotone)",
         "QuietRun a x: nothing from x and no 'alive' update about x is delivered to a (failure_detected_*_partial)",
@@ -355,7 +411,75 @@ class C13(core.Property):
     def generate(self, rng: random.Random, i: int, tier: str) -> dict:
         if i % 6 == 5:
             return self.gen_phi(rng, tier)
+        if i % 6 in (1, 3):
+            return self.gen_partition(rng, tier)
         return self.gen_cluster(rng, tier)
+
+    def gen_partition(self, rng, tier):
+        """clusters whose network is cut for a while: nobody has to crash for views to diverge.
+        Shapes: a victim cut off from a subset of its peers for good (partial partition), a victim
+        (or a minority) cut off from everybody and re-connected later, two overlapping partitions,
+        a random split; each with fast links, so that every DEAD verdict is caused by the cut, and
+        long enough for suspicion, death, gossip about it and contact after it."""
+        n = rng.choice([3, 4, 4, 5, 5, 5, 6, 7])
+        ivu = rng.choice([32, 64, 128, 256, 512])
+        half = ivu // 2
+        susp = rng.choice([half, ivu, ivu, ivu + half, ivu + half, 2 * ivu, 3 * ivu + 1, max(1, half // 2)])
+        thr = rng.choice([1.0, 4.0, 8.0, 8.0, 8.0, 12.0, 16.0])
+        dmax = rng.choice([1, 1, 2, max(1, half // 4), max(1, half // 2), half - 1, half + 1])
+        dmode = rng.choice(["uniform", "uniform", "const", "bimodal"])
+        rounds = rng.choice([16, 24, 32, 40] if n <= 5 or tier == "thorough" else [16, 24])
+        horizon = rounds * ivu
+        nodes = list(range(n))
+        victim = rng.randrange(n)
+        others = [x for x in nodes if x != victim]
+        t_cut = rng.randint(1, max(2, rounds // 3)) * ivu + rng.choice([0, 0, 1, half, ivu // 5, ivu - 1])
+        later = lambda lo: min(horizon, lo + rng.choice([1, 2, 3, 4, 6, 8]) * ivu + rng.choice([0, 1, half, ivu // 5]))
+        shape = rng.choice(["partial", "partial", "heal", "heal", "minority", "overlap", "split", "flap"])
+        parts = []
+        if shape == "partial":
+            k = rng.randint(1, max(1, len(others) - 1))
+            parts.append([t_cut, [victim], sorted(rng.sample(others, k)), None if rng.random() < 0.7 else later(t_cut)])
+        elif shape == "heal":
+            parts.append([t_cut, [victim], others, later(t_cut)])
+        elif shape == "minority":
+            k = rng.randint(1, max(1, (n - 1) // 2))
+            ga = sorted(rng.sample(nodes, k))
+            parts.append([t_cut, ga, [x for x in nodes if x not in ga], later(t_cut) if rng.random() < 0.7 else None])
+        elif shape == "overlap":
+            k = rng.randint(1, len(others))
+            a = sorted(rng.sample(others, k))
+            b = sorted(rng.sample(others, rng.randint(1, len(others))))
+            t2 = later(t_cut)
+            parts.append([t_cut, [victim], a, later(t_cut) if rng.random() < 0.6 else None])
+            parts.append([t2, b, [victim], later(t2) if rng.random() < 0.6 else None])
+        elif shape == "split":
+            ga = sorted(rng.sample(nodes, rng.randint(1, n - 1)))
+            gb = sorted(rng.sample(nodes, rng.randint(1, n - 1)))  # may overlap ga: both directions of a pair, self pairs
+            parts.append([t_cut, ga, gb, later(t_cut) if rng.random() < 0.5 else None])
+        else:  # flap: the same cut made and healed repeatedly
+            t = t_cut
+            for _ in range(rng.choice([2, 3])):
+                th = later(t)
+                parts.append([t, [victim], sorted(rng.sample(others, rng.randint(1, len(others)))), th])
+                t = later(th)
+        crashes = []
+        if rng.random() < 0.2:
+            crashes.append([rng.choice(others), rng.randint(0, horizon)])
+        offs = [0] * n
+        if rng.random() < 0.4:
+            offs = [rng.randrange(ivu) for _ in range(n)]
+        case = {"family": "cluster", "n": n, "iv": ivu, "susp": susp, "thr": thr, "indirect": rng.choice([3, 3, 1, 0, 2]),
+                "rounds": rounds, "seed": rng.getrandbits(32), "dmax": dmax, "dmode": dmode,
+                "crashes": crashes, "offs": offs, "parts": parts}
+        if rng.random() < 0.25:
+            # late duplicates of gossip (a re-sent ping carrying an old update about the victim)
+            inject = []
+            for _ in range(rng.choice([1, 2, 4])):
+                src, dst = rng.sample(range(n), 2)
+                inject.append([rng.randint(t_cut, horizon), src, dst, [[victim, rng.choice("ssd"), 0]]])
+            case["inject"] = inject
+        return case
 
     def gen_cluster(self, rng, tier):
         n = rng.choice([3, 3, 4, 4, 5, 5, 6, 7, 8])
@@ -410,11 +534,19 @@ class C13(core.Property):
         ops, t = [], rng.choice([0, 0, 100, 5000])
         nseg = rng.choice([1, 2, 4, 8])
         base = rng.choice([16, 64, 256, 512])
-        for _ in range(nseg):
+        window = [init / 512.0] if init else []   # the generator's own estimate of the interval window
+        last = None
+        tail_mode = rng.choice(["none", "ladder", "ladder", "dense", "dense"])
+        for si in range(nseg):
             reps = rng.choice([1, 1, 2, 3, 6])
             for _ in range(reps):
                 t += max(0, base + rng.choice([0, 0, 1, -1, base // 2, -base // 2, 3 * base, -base]))
                 ops.append(["h", t])
+                if last is not None and t > last:
+                    window.append((t - last) / 512.0)
+                    if len(window) > maxn:
+                        window.pop(0)
+                last = t
             # samples: increasing times after the last heartbeat, some off-grid (sub-unit ns offsets)
             q = t
             step = rng.choice([1, 4, base // 4 or 1, base])
@@ -422,10 +554,42 @@ class C13(core.Property):
             for _ in range(rng.choice([3, 6, 12])):
                 q += rng.choice([0, step, step, 2 * step])
                 seg.append(["q", q, rng.choice([0, 0, 1, 977, 1953124])])
+            if window and tail_mode != "none" and (si == nseg - 1 or rng.random() < 0.3):
+                seg += self.tail_samples(rng, t, window, thr, tail_mode)
             seg.sort(key=lambda o: o[1] * U + o[2])
             ops += seg
-            t = max(t, q + 1)
+            t = max([t, q + 1] + [o[1] + 1 for o in seg])
         return {"family": "phi", "thr": thr, "init": init, "maxn": maxn, "ops": ops}
+
+    def tail_samples(self, rng, last, window, thr, mode):
+        """a long silence: sample times placed by standardised distance y = (elapsed - mean)/sd from the
+        expected arrival — below the mean, around the threshold crossing, tens of standard deviations
+        out, through the range where the tail probability is a subnormal double, across the point where
+        it underflows to 0 (phi = +inf), and far beyond.  The boundaries come from the float formula
+        itself (bisection), not from constants."""
+        mean = sum(window) / len(window)
+        var = sum((x - mean) ** 2 for x in window) / len(window) if len(window) > 1 else 0.0
+        sd = max(math.sqrt(var), 0.1)
+        y_thr = ystar(thr)
+        y_sub = ystar(-math.log10(2.2250738585072014e-308))   # tail probability leaves the normal range
+        y_inf = ystar(float("inf"))                            # tail probability underflows to 0
+        ys = [-3.0, -0.5, 0.0, 0.5, y_thr - 0.01, y_thr, y_thr + 0.01, 10.0, 15.0, 20.0, 25.0, 30.0, 35.0,
+              y_sub - 0.5, y_sub - 0.01, y_sub, y_sub + 0.01, (y_sub + y_inf) / 2, y_inf - 0.01, y_inf, y_inf + 0.01,
+              y_inf + 0.5, 45.0, 60.0, 100.0, 1e3, 1e5]
+        ys = [y for y in ys if rng.random() < 0.8]
+        if mode == "dense":
+            k = rng.choice([24, 48, 96])
+            lo, hi = y_sub - rng.choice([0.05, 0.3]), y_inf + rng.choice([0.05, 0.3])
+            ys += [lo + (hi - lo) * j / k for j in range(k + 1)]
+            ys += [rng.uniform(y_sub, y_inf + 0.1) for _ in range(rng.choice([0, 8, 16]))]
+        out = []
+        for y in sorted(ys):
+            el = mean + y * sd
+            if el < 0:
+                continue
+            ns = last * U + int(round(el * 1e9))
+            out.append(["q", ns // U, ns % U])
+        return out
 
     # ------------------------------------------------------------------ implementation
     def _cluster(self, case):
@@ -520,14 +684,35 @@ class C13(core.Property):
         for i in range(len(case.get("inject", []))):
             c = dict(case)
             c["inject"] = case["inject"][:i] + case["inject"][i + 1:]
+            if not c["inject"]:
+                del c["inject"]
             yield c
+        for i, part in enumerate(case.get("parts", [])):
+            c = dict(case)
+            c["parts"] = case["parts"][:i] + case["parts"][i + 1:]
+            if not c["parts"]:
+                del c["parts"]
+            yield c
+            for g in (1, 2):           # a smaller group
+                if len(part[g]) > 1:
+                    for j in range(len(part[g])):
+                        c = dict(case)
+                        q = list(part)
+                        q[g] = part[g][:j] + part[g][j + 1:]
+                        c["parts"] = case["parts"][:i] + [q] + case["parts"][i + 1:]
+                        yield c
+            if part[3] is not None:    # never healed
+                c = dict(case)
+                c["parts"] = case["parts"][:i] + [[part[0], part[1], part[2], None]] + case["parts"][i + 1:]
+                yield c
         if any(case.get("offs") or []):
             c = dict(case)
             c["offs"] = [0] * case["n"]
             yield c
         if case["n"] > 3:
             top = case["n"] - 1
-            if all(x != top for x, _ in case.get("crashes", [])) and not case.get("inject"):
+            if all(x != top for x, _ in case.get("crashes", [])) and not case.get("inject") and \
+                    all(top not in pt[1] and top not in pt[2] for pt in case.get("parts", [])):
                 c = dict(case)
                 c["n"] = top
                 c["offs"] = (case.get("offs") or [0] * case["n"])[:top]
@@ -546,6 +731,20 @@ class C13(core.Property):
         if c["family"] == "phi":
             return self.gen_phi(rng, "quick")
         k = rng.random()
+        if c.get("parts") and k < 0.5:
+            pt = rng.choice(c["parts"])
+            horizon = c["rounds"] * c["iv"]
+            j = rng.random()
+            if j < 0.4:
+                pt[0] = max(1, min(horizon, pt[0] + rng.choice([-1, 1, c["iv"] // 2, -c["iv"] // 2, c["iv"]])))
+                if pt[3] is not None:
+                    pt[3] = max(pt[3], pt[0] + 1)
+            elif j < 0.7:
+                pt[3] = None if pt[3] is not None and rng.random() < 0.3 else \
+                    min(horizon, pt[0] + rng.randint(1, 8) * c["iv"] + rng.choice([0, 1, c["iv"] // 2]))
+            else:
+                c["seed"] = rng.getrandbits(32)
+            return c
         if k < 0.3:
             c["seed"] = rng.getrandbits(32)
         elif k < 0.5:
@@ -566,6 +765,12 @@ THEOREMS = [
     "HappyModel.C13.no_false_death",
     "HappyModel.C13.no_false_death_view",
     "HappyModel.C13.dead_not_revived_without_incarnation",
+    "HappyModel.C13.dead_never_alive_again",
+    "HappyModel.C13.revive_trace_is_pairwise",
+    "HappyModel.C13.partition_blocks",
+    "HappyModel.C13.partition_isolates",
+    "HappyModel.C13.heal_only_unblocks",
+    "HappyModel.C13.phi_inf_absorbing",
     "HappyModel.C13.phi_monotone",
     "HappyModel.C13.failure_detected_partial",
     "HappyModel.C13.failure_detected_by_phi_partial",
